@@ -2,7 +2,7 @@
    Model: C20/Model.v (unique-set.go, knock.go, the knockChan sends of canary_linux.go, as
    repaired: Each iterates over a copy; the TCP knock is queued where a SYN is handled; UDP
    groups carry ProtocolUDP). *)
-From HT Require Import Common.Bytes C20.Model C20.Check C20.Proofs.
+From HT Require Import Common.Bytes C20.Model C20.Proofs.
 From Coq Require Import Permutation.
 Open Scope Z_scope.
 
